@@ -120,6 +120,69 @@ def r03_1(run):
                slot='notify-type', message='_when_disconnected fired with %s' % txt[:80])
 
 
+def _partial_ops(stmts, loop_names):
+    """statements / expressions that can raise on some runtime value: destructuring a computed
+    sequence, constant index into a split, int()/float()/next() conversion"""
+    out = []
+    for st in stmts:
+        for a in ast.walk(st):
+            if isinstance(a, ast.Assign) and any(isinstance(t, (ast.Tuple, ast.List)) for t in a.targets):
+                v = a.value
+                if not (isinstance(v, (ast.Tuple, ast.List)) or (isinstance(v, ast.Name) and v.id in loop_names)):
+                    out.append((a, 'unpacks %s into %d names' % (src(v)[:50], len(a.targets[0].elts))))
+            elif isinstance(a, ast.Subscript) and isinstance(a.value, ast.Call) and callee_attr(a.value) in ('split', 'rsplit', 'partition', 'groups') \
+                    and not isinstance(a.slice, ast.Slice) and const(a.slice) not in (0, NOCONST):
+                out.append((a, 'indexes %s' % src(a)[:50]))
+            elif isinstance(a, ast.Call) and dotted(a.func) in ('int', 'float', 'next'):
+                out.append((a, 'converts with %s' % src(a)[:50]))
+    return out
+
+
+def r03_4(run):
+    """Two necessary conditions on the order of things inside connectionLost.
+    (a) the snapshot of the outstanding commands is taken after the last observer notification: a command
+        submitted from a notification is otherwise neither in the snapshot nor kept by the reset.
+    (b) nothing in the errback loop can raise besides the errback itself: an exception there leaves every
+        later command pending for ever."""
+    cl = U(run, 'connectionLost')
+    g = cfg_of(cl)
+    defs = local_defs(cl)
+    loops = [lp for lp in walk_unit(cl) if isinstance(lp, ast.For) and any(isinstance(c, ast.Call) and callee_attr(c) == 'errback' for c in ast.walk(lp))]
+    run.floor('R03.4', 'errback loops in connectionLost', len(loops), 1)
+    in_loop = set()
+    for lp in loops:
+        for a in ast.walk(lp):
+            in_loop.add(id(a))
+    # (a)
+    snaps = []
+    for lp in loops:
+        if isinstance(lp.iter, ast.Name):
+            for n in g.real_nodes():
+                if n.kind == 'stmt' and isinstance(n.ast, ast.Assign) and assign_to(n.ast, lp.iter.id) is not None \
+                        and (mentions(n.ast.value, 'self.commands') or mentions(n.ast.value, 'self.command')):
+                    snaps.append(n)
+    resets = g.nodes_where(lambda n: any(_empties_queue(a) for a in node_asts(n)))
+    notif = [n for n in g.real_nodes() if n.kind == 'stmt' and not id(n.ast) in in_loop and
+             any(isinstance(a, ast.Call) and callee_attr(a) in ('fire', 'callback', 'errback') for a in node_asts(n))]
+    run.floor('R03.4', 'observer notifications in connectionLost', len(notif), 1)
+    for sn in snaps:
+        for nn in notif:
+            between = nn in g.reachable([sn], follow_exc=False) and any(rn in g.reachable([nn], follow_exc=False) for rn in resets)
+            run.ob('R03.4', cl, nn.ast, 'no observer runs between the snapshot of outstanding commands and the reset of the queue', not between,
+                   slot='notify-inside-snapshot',
+                   message='connectionLost copies the outstanding commands, then runs %s, then resets the queue: a command submitted by '
+                           'that observer is in neither and never fires' % src(nn.ast)[:60])
+    # (b)
+    k = 0
+    for lp in loops:
+        names = set(x.id for x in ast.walk(lp.target) if isinstance(x, ast.Name))
+        for a, what in _partial_ops(lp.body, names):
+            k += 1
+            run.ob('R03.4', cl, a, 'nothing in the errback loop can raise on a runtime value', False, slot='partial-op-in-loop',
+                   message='the errback loop %s: when that raises (e.g. a command without arguments) the remaining commands are never failed' % what)
+        run.ob('R03.4', cl, lp, 'errback loop examined for partial operations', True, slot='loop-examined')
+
+
 def _loss_tests(g):
     """tests that ask "has the connection been lost": label that means LOST."""
     out = []
@@ -196,6 +259,7 @@ def r_so(run):
 
 RULES = [
     ('R03.1', 'post-condition of connectionLost on every path: one disconnect notification, in-flight and queued commands errbacked, slot cleared, queue emptied', r03_1),
+    ('R03.4', 'order inside connectionLost: snapshot after the last observer notification; no partial operation (unpack of split, int()) inside the errback loop', r03_4),
     ('R03.2', 'typestate of the in-flight slot in _maybe_issue_command: taken => written or released on every path', r03_2),
     ('R03.3', 'dominance: the transport write lies behind the not-disconnected test', r03_3),
     ('R-SO', 'SingleObserver is guard-and-latch; every .fire receiver is a SingleObserver field', r_so),
@@ -211,11 +275,14 @@ MUTANTS = [
     M('no-disconnect-fire', F, "        self._when_disconnected.fire(\n", "        (lambda x: x)(\n", ['R03.1']),
     M('slot-kept-on-loss-leg', F, "            if self._when_disconnected.already_fired(d):\n                self.command = None\n                return", "            if self._when_disconnected.already_fired(d):\n                return", ['R03.2']),
     M('write-before-loss-test', F, "            if self._when_disconnected.already_fired(d):\n                self.command = None\n                return\n", "", ['R03.3']),
+    M('loop-unpacks-split', F, "            if not d.called:\n                d.errback(", "            if not d.called:\n                kw, _ = cmd.decode('ascii').split(' ', 1)\n                d.errback(", ['R03.4']),
+    M('snapshot-before-notify', F, ["        txtorlog.msg('connection terminated: ' + str(reason))\n", "        outstanding = [self.command] + self.commands if self.command else self.commands\n        self.command = None"], ["        txtorlog.msg('connection terminated: ' + str(reason))\n        outstanding = [self.command] + self.commands if self.command else self.commands\n", "        self.command = None"], ['R03.4']),
     M('so-no-latch', 'txtorcon/util.py', "            d.callback(self._fired)\n        self._observers = None\n", "            d.callback(self._fired)\n", ['R-SO']),
     M('so-no-guard', 'txtorcon/util.py', "        if self._observers is None:\n            return  # raise RuntimeError(\"already fired\") ?\n", "", ['R-SO']),
     M('so-when-fired-registers-always', 'txtorcon/util.py', "            d.callback(self._fired)\n        else:\n            self._observers.append(d)", "            d.callback(self._fired)\n        if self._observers is not None:\n            self._observers.append(d)", ['R-SO']),
 ]
 TWINS = [
+    M('loop-keyword-safe', F, "            if not d.called:\n                d.errback(", "            if not d.called:\n                kw = cmd.decode('ascii').split(' ', 1)[0]\n                d.errback("),
     M('deque-queue', F, ["from warnings import warn\n", "        self.commands = []       # queued commands", "            self.command = self.commands.pop(0)", "        outstanding = [self.command] + self.commands if self.command else self.commands", "        self.defer = None\n        self.commands = []\n"], ["from warnings import warn\nfrom collections import deque\n", "        self.commands = deque()  # queued commands", "            self.command = self.commands.popleft()", "        outstanding = [self.command] + list(self.commands) if self.command else list(self.commands)", "        self.defer = None\n        self.commands = deque()\n"]),
     M('drain-in-loop', F, "        outstanding = [self.command] + self.commands if self.command else self.commands\n        self.command = None\n        self.defer = None\n        self.commands = []\n", "        outstanding = [self.command] + self.commands if self.command else list(self.commands)\n        self.command = None\n        self.defer = None\n        del self.commands[:]\n"),
     M('clear-queue', F, "        self.defer = None\n        self.commands = []\n", "        self.defer = None\n        del self.commands[:]\n"),
